@@ -69,7 +69,7 @@ PROPS = {
     'C10': dict(functional=True, generic=False, level='proof', trusted_base=[], assumptions=PY_SEM, claimed=False,
                 level_text='bit/byte regrouping helpers proved against MSB-first specifications', level_note='helpers only so far'),
     'C09': dict(functional=True, generic=False, level='proof', trusted_base=[], assumptions=PY_SEM, claimed=False, level_text='wip', level_note='wip'),
-    'C13': dict(functional=True, generic=False, level='proof', trusted_base=[], assumptions=PY_SEM, claimed=False, level_text='wip', level_note='wip'),
+    'C13': dict(functional=True, generic=True, level='proof', trusted_base=[], assumptions=PY_SEM, claimed=False, level_text='wip', level_note='wip'),
     'C14': dict(functional=True, generic=False, level='proof', trusted_base=[], assumptions=PY_SEM, claimed=False, level_text='wip', level_note='wip'),
     'C08': dict(functional=True, generic=False, level='proof', trusted_base=[], assumptions=PY_SEM, claimed=False, level_text='wip', level_note='wip'),
     'C17': dict(functional=False, generic=True, level='proof', trusted_base=[E3],
